@@ -112,6 +112,15 @@ def kit():
             INVOKED.append([id(self), eng.global_time, ts])
             return {'t': {'count': 1}}
 
+    class Drv2(Step):
+        """a second legacy deriver (no flow entry) listed after `drv`: h := d + 1, so it must run after drv's
+        update of the same phase has been applied"""
+        def ports_schema(self):
+            return {'s': {'d': {'_default': 0, '_updater': 'set'}, 'h': {'_default': 1, '_updater': 'set'}}}
+
+        def next_update(self, ts, states):
+            return {'s': {'h': states['s']['d'] + 1}}
+
     class Plain(Step):
         def ports_schema(self):
             return {'misc': {'z': {'_default': 0, '_updater': 'set'}}}
@@ -150,7 +159,7 @@ def kit():
                         a.setdefault('_delete', []).append('fix')
                 return upd
         return Director
-    _KIT = dict(ObsP=ObsP, ObsS=ObsS, Probe=Probe, Sensor=Sensor, Plain=Plain,
+    _KIT = dict(ObsP=ObsP, ObsS=ObsS, Probe=Probe, Sensor=Sensor, Plain=Plain, Drv2=Drv2,
                 DirP=director(Process), DirS=director(Step), Holder=K['Holder'])
     return _KIT
 
@@ -164,6 +173,10 @@ def live_update(col, ops):
         p['sns'] = kit()['Sensor']({'timestep': STS[len(INVOKED_TS) % len(STS)] if SLOW[0] else 1})
         INVOKED_TS.append(1)
         t['sns'] = {'r': ('..', 'ref', 's'), 't': ('..', '..', 'tally')}
+        if 'drv' in p:
+            # (struct.compartment lists the legacy deriver in the processes dict; its follower goes right after it)
+            p['drv2'] = kit()['Drv2']()
+            t['drv2'] = {'s': ('s',)}
         return p, s, f, t
     struct.compartment = comp
     try:
@@ -174,6 +187,7 @@ def live_update(col, ops):
 
 TRACE = []
 PHASES = []
+RELS = []
 INVOKED = []        # [sensor id, time of the invocation, timestep]
 INVOKED_TS = []
 STS = [1, 3, 2, 1, 2, 3, 1]
@@ -199,6 +213,28 @@ def instrument():
         finally:
             TRACE.append(['SU_END'])
             BATCHES.append([self.global_time, {id(p) for p in self.process_paths.values()}])
+            # after the step phase every kit step's output is what it computes from the CURRENT values of its
+            # compartment (it ran once, saw the committed state and the updates of the steps before it)
+            K = struct.kit()
+            # (only when the structure and the counters are changed by PROCESSES: a director step changes them in
+            # the middle of the phase, after earlier steps of the same phase have legitimately used the old values)
+            for path, x in (list(self._step_paths.items()) if CTX.get('director') == 'process' else []):
+                try:
+                    sv = self.state.get_path(path[:-1] + ('s',)).get_value()
+                except Exception:
+                    continue
+                want = None
+                if isinstance(x, K['Drv']):
+                    want = ('d', sv['n'] * 2)
+                elif isinstance(x, K['Fst']):
+                    want = ('f', sv['n'] * 3)
+                elif isinstance(x, K['Fst2']):
+                    want = ('g', sv['f'] + 1)
+                elif isinstance(x, kit()['Drv2']):
+                    want = ('h', sv['d'] + 1)
+                if want and sv.get(want[0]) != want[1]:
+                    RELS.append('after the step phase at t=%s, %s holds %s = %r; from the current values the step '
+                                'computes %r' % (self.global_time, '/'.join(path[:-1]), want[0], sv.get(want[0]), want[1]))
 
     def run_steps(self, *args, **kwargs):
         TRACE.append(['RS'])
@@ -303,11 +339,24 @@ def gen_case(rng):
             'more': {k: {'s': {'n': rng.randint(1, 9)}} for k in rng.sample(['i1', 'i2', 'i3'], rng.randint(1, 3))}}
 
 
+def corpus():
+    """directed cases: a compartment with steps deleted and generated again under the SAME key; chained derivers
+    in a compartment created at run time"""
+    base = {'kind': 'live', 'director': 'process', 'refresh': [], 'extra': 3, 'slow': False, 'entry': 'parts', 'more': {}}
+    return [
+        dict(base, hist=[['A', [['generate', 'c01', 3, {'s': {'n': 5}}]]], ['A', [['delete', 'c01']]],
+                         ['A', [['generate', 'c01', 3, {'s': {'n': 50}}]]], ['B', [['generate', 'c02', 1, {'s': {'n': 2}}]]]]),
+        dict(base, hist=[['B', [['generate', 'c01', 1, {'s': {'n': 4}}]]], ['B', [['generate', 'c02', 3, {'s': {'n': 7}}]]],
+                         ['B', [['divide', 'c02', [['c03', 1, {}], ['c04', 3, {}]], 11]]]]),
+    ]
+
+
 def run_impl(c):
     from vivarium.core.engine import Engine
     K = kit()
     del LOG[:]
     step_dir = c['director'] == 'step'
+    CTX['director'] = c['director']
     cfg = {'hist': c['hist'], 'refresh': c['refresh']}
     processes = {'holder': K['Holder'](), 'obs_p': K['ObsP']({'name': 'obs_p'}), 'probe': K['Probe']()}
     steps, flow = {}, {}
@@ -337,6 +386,7 @@ def run_impl(c):
     try:
         del TRACE[:]
         del PHASES[:]
+        del RELS[:]
         del INVOKED[:]
         del INVOKED_TS[:]
         del BATCHES[:]
@@ -367,6 +417,7 @@ def run_impl(c):
     out['log'] = [list(x) for x in LOG]
     out['sends'] = segments(TRACE)
     out['phases'] = list(PHASES)
+    out['rels'] = list(RELS)
     return out
 
 
@@ -400,6 +451,13 @@ def oracle_phases(c, ob, rng):
     """C10 / C05: every step that exists when a phase begins runs exactly once in it"""
     if ob.get('phases'):
         return [(ob['phases'][0], 'step-not-once-per-phase')]
+    return []
+
+
+def oracle_rels(c, ob, rng):
+    """C05 / C04: after a step phase every step's output is what it computes from the current state"""
+    if ob.get('rels'):
+        return [(ob['rels'][0], 'step-saw-stale-state')]
     return []
 
 
